@@ -62,6 +62,10 @@ def render(h: HState, sn: str, ev: dict) -> str | bytes:
         return f"{op.upper()} \"{ev['m']}\""
     if op == "rename":
         return f"RENAME \"{ev['m']}\" \"{ev['to']}\""
+    if op in ("subscribe", "unsubscribe"):
+        return f"{op.upper()} \"{ev['m']}\""
+    if op == "status":
+        return f"STATUS \"{ev['m']}\" (MESSAGES UIDNEXT)"
     raise ValueError(op)
 
 
